@@ -288,37 +288,27 @@ deriving Repr, DecidableEq
 def GErr.toString : GErr → String
   | .disabled => "disabled" | .unknown => "unknown" | .cycle => "cycle"
 
-/-- state of the inner loop of one service: edges collected so far, and whether `delete(s.DependsOn, name)`
-has been executed (it removes the service's dependency *on itself*, so that entry is not produced later) -/
-structure LoopSt where
-  edges : List String
-  selfDeleted : Bool
-deriving Repr, DecidableEq
-
-/-- `for dep, condition := range s.DependsOn { … }` in list order, with Go's delete-during-range semantics -/
-def depLoop (enabled disabled : List String) (name : String) : AL Bool → LoopSt → Except GErr LoopSt
-  | [], st => .ok st
-  | (dep, required) :: r, st =>
-    if dep = name && st.selfDeleted then depLoop enabled disabled name r st   -- entry was deleted before being reached
-    else if enabled.contains dep then depLoop enabled disabled name r { st with edges := st.edges ++ [dep] }
+/-- `for dep, condition := range s.DependsOn { … }` in list order: the edges collected, or the error of the first
+required dependency that is not an enabled service.  An optional one is skipped; nothing is written to the project
+(since `fix:` 3143716; the earlier `delete(s.DependsOn, name)` is `depLoopOld` in `Neg/C02.lean`) -/
+def depLoop (enabled disabled : List String) : AL Bool → List String → Except GErr (List String)
+  | [], es => .ok es
+  | (dep, required) :: r, es =>
+    if enabled.contains dep then depLoop enabled disabled r (es ++ [dep])
     else if required then
       (if disabled.contains dep then .error .disabled else .error .unknown)
-    else depLoop enabled disabled name r { st with selfDeleted := true }
+    else depLoop enabled disabled r es
 
-/-- the service after the loop: its `DependsOn` lost the self entry if the delete ran -/
-def svcAfter (s : Svc) (st : LoopSt) : Svc :=
-  if st.selfDeleted then { s with deps := s.deps.filter (fun kv => kv.1 ≠ s.name) } else s
-
-/-- outer loop over `project.Services` in list order: (services after mutation, adjacency) -/
-def graphLoop (enabled disabled : List String) : List Svc → Except GErr (List Svc × AL (List String))
-  | [] => .ok ([], [])
+/-- outer loop over `project.Services` in list order: the adjacency -/
+def graphLoop (enabled disabled : List String) : List Svc → Except GErr (AL (List String))
+  | [] => .ok []
   | s :: r =>
-    match depLoop enabled disabled s.name s.deps ⟨[], false⟩ with
+    match depLoop enabled disabled s.deps [] with
     | .error e => .error e
-    | .ok st =>
+    | .ok es =>
       match graphLoop enabled disabled r with
       | .error e => .error e
-      | .ok (ss, adj) => .ok (svcAfter s st :: ss, (s.name, st.edges) :: adj)
+      | .ok adj => .ok ((s.name, es) :: adj)
 
 /-- is there a path of length ≤ fuel from `x` back into `path`?  (`searchCycle`, children visited in any order:
 only *whether* a cycle exists is modelled, not which one is printed) -/
@@ -330,11 +320,11 @@ def reaches (adj : AL (List String)) : Nat → String → String → Bool
 def hasCycle (adj : AL (List String)) : Bool :=
   adj.any (fun kv => reaches adj adj.length kv.1 kv.1)
 
-/-- `CheckCycle(project)`: error class, or the (mutated) services -/
+/-- `CheckCycle(project)`: error class, or the services as the call leaves them (= as it found them) -/
 def newGraph (svcs : List Svc) (disabled : List String) : Except GErr (List Svc) :=
   match graphLoop (svcs.map (·.name)) disabled svcs with
   | .error e => .error e
-  | .ok (ss, adj) => if hasCycle adj then .error .cycle else .ok ss
+  | .ok adj => if hasCycle adj then .error .cycle else .ok svcs
 
 /-! ## `ApplyExtends` (same-file references): memoised recursive resolution -/
 
